@@ -131,7 +131,7 @@ def _parse_ndp_options (raw, prev, offset = 0, buf_len = None):
 
   while offset < buf_len - 2:
     if (buf_len - offset) % 8 != 0:
-      raise RuntimeError("Bad option data length")
+      raise TruncatedException("Bad option data length")
     offset,o = NDOptionBase.unpack_new(raw, offset, buf_len, prev=prev)
     r.append(o)
 
